@@ -502,6 +502,14 @@ func (ex *Exec) verifIntrinsic(st *PState, fn *ssa.Function, base string, args [
 			fail("verifVec: type %s has dimension %d, got %d coefficients", rt, d, len(v.C))
 		}
 		return v, true
+	case "verifCycRoot":
+		// verifCycRoot[T](k int) T: the power w^k of the formal primitive root of the ring interpretation
+		rt := fn.Signature.Results().At(0).Type()
+		return ex.cycRoot(ex.vecDim(rt), ex.constIntArg(args[0])), true
+	case "verifCycScalar":
+		// verifCycScalar[T](name string) T: an arbitrary scalar (element of the coefficient field)
+		rt := fn.Signature.Results().At(0).Type()
+		return ex.cycScalar(ex.vecDim(rt), ex.newVar(ex.uniq(constString(args[0])), SReal, nil, nil)), true
 	case "verifVecCoefBig":
 		// verifVecCoefBig[T](p *T, i int) *big.Int: coefficient i of a module element
 		vv := ex.ldV(st, args[0])
@@ -570,7 +578,6 @@ func (ex *Exec) tighten(c *Term) {
 		// var = const is left to the solver
 	}
 }
-
 
 func (ex *Exec) flattenLeaves(st *PState, v Value, out *[]*Term) {
 	switch x := v.(type) {
@@ -695,7 +702,6 @@ func (ex *Exec) ufValue(name string, t types.Type, args []*Term) Value {
 	}
 	return build("", t)
 }
-
 
 // isSummarised reports whether a call is handled by a summary (stub or abstract-type method)
 // rather than by inlining the callee's SSA.
